@@ -56,7 +56,9 @@ ASSUMPTIONS = [
 ]
 RULE = ("cases: the real Tuner.run() with random StoppingCriterion combinations (all fields), max_failures, "
         "wait_trial_completion_when_stopping / asynchronous_scheduling / start_jobs_without_delay on and off, failures, "
-        "external stops and exceptions injected at random call positions; non-trivial iff the criterion (or the failure "
+        "external stops and exceptions injected at random call positions; simulator runs with long start delays, resuming schedulers "
+        "and small evaluation budgets (the criterion holds while a resumed trial waits for its worker); real LocalBackend runs with "
+        "workers that handle SIGTERM (monitor only: no worker alive after stop / pause / stop_all); non-trivial iff the criterion (or the failure "
         "limit or exhaustion) ended the run or an injected exception was hit")
 
 
